@@ -22,7 +22,7 @@ def check(ctx):
     # script and ending, and again on a second / third / concurrent subscription of the same pipeline and on a second
     # source of the same operator value ("precisely the delivered values, once, at completion" holds for every
     # subscription, not only the first)
-    for op in ('ToSlice', 'ToMap', 'Materialize', 'Dematerialize'):
+    for op in ('ToSlice', 'ToMap', 'Materialize', 'Dematerialize', 'MaterializeDematerialize'):
         rows = R.run_kind(ctx, 'ops', extra=['-only', op], shards=2)
         R.compare(ctx, rows, lambda d: (flag(d), toks(d.get('trace')), d.get('alias')), f'C17 {op}: delivered values and terminal', nontrivial=nontrivial_op)
         rows = run_reuse(ctx, extra=['-only', op], shards=2)
